@@ -235,6 +235,13 @@ def split_index_lists(n):
             out.append((list(c), 'idx-interior' if interior else 'idx-empty-part'))
     out.append(([n + 1], 'idx-beyond'))
     out.append(([1, n + 2], 'idx-beyond'))
+    # three cut points (four parts): interior where the extent allows it, a repeated one, one beyond the extent
+    out.append(([1, 2, 3], 'idx-interior' if n >= 4 else 'idx-beyond' if n < 3 else 'idx-empty-part'))
+    out.append(([0, n, n + 3], 'idx-beyond'))
+    # descending cut points: outside np.split's documented domain but accepted by it (a[hi:lo] is empty); covered by
+    # splitIdx_elem / splitIdx_inBounds (not by splitIdx_partition, which needs sorted cut points)
+    if n >= 2:
+        out.append(([n, 1], 'idx-unsorted'))
     return out
 
 
@@ -257,7 +264,8 @@ def gen_split(tier, rng):
                 keep = [x for x in lists if x[1] == 'idx-interior']
                 lists = (sample(rng, keep, 2) if few else keep) + \
                     sample(rng, [x for x in lists if x[1] == 'idx-empty-part'], 2 if few else 4) + \
-                    sample(rng, [x for x in lists if x[1] == 'idx-beyond'], 1 if few else 2)
+                    sample(rng, [x for x in lists if x[1] == 'idx-beyond'], 1 if few else 2) + \
+                    sample(rng, [x for x in lists if x[1] == 'idx-unsorted'], 1)
             for il, cls in lists:
                 parts = np.split(a, il, axis=ax)
                 chosen = list(enumerate(parts))
